@@ -53,6 +53,11 @@ def jobs(tier, seed):
     for ch in C.chunks(pairs, 8):
         out.append({'fn': 'cmp_units', 'cfg': {'pairs': ch}})
     out.append({'fn': 'cmp_units_user', 'cfg': {}})
+    # unit pairs with a non-decimal ratio under the faithful model of result kinds (Decimal when the value is a finite
+    # decimal, Fraction otherwise; DESIGN 2.2): code that dispatches on the kind of a converted amount
+    for pr in (['h', 'min'], ['yd', 'ft'], ['lb', 'kg']):
+        for fa_, fb_ in (('frac', 'dec'), ('dec', 'frac')):
+            out.append({'fn': 'cmp_pair', 'cfg': {'fa': fa_, 'fb': fb_, 'pairs': [pr]}, 'opts': {'repr_fork': True}})
     for ri in range(4):
         out.append({'fn': 'cmp_after_allocate', 'cfg': {'recv': ri}})
     out.append({'fn': 'cmp_user', 'cfg': {'fa': 'dec', 'fb': 'frac'}})
